@@ -47,7 +47,7 @@ func c08FindRoles(c *Ctx, rule string) *c08Roles {
 		return nil
 	}
 	// the string field that holds the path of index.json, by what is assigned to it
-	for _, f := range c.P.FuncsOfPkg(c08Pkg) {
+	for _, f := range c09FuncsOfPkg(c.P, c08Pkg) {
 		AllInstrs(f, func(in ssa.Instruction) {
 			st, ok := in.(*ssa.Store)
 			if !ok {
@@ -74,7 +74,7 @@ func c08FindRoles(c *Ctx, rule string) *c08Roles {
 			return nil
 		}
 	}
-	for _, f := range c.P.FuncsOfPkg(c08Pkg) {
+	for _, f := range c09FuncsOfPkg(c.P, c08Pkg) {
 		if f.Signature.Recv() == nil {
 			continue
 		}
@@ -114,7 +114,7 @@ func c08FindRoles(c *Ctx, rule string) *c08Roles {
 	// tag map inside, and every nil-error return has passed a successful save or the AutoSaveIndex==false edge
 	for changed := true; changed; {
 		changed = false
-		for _, f := range c.P.FuncsOfPkg(c08Pkg) {
+		for _, f := range c09FuncsOfPkg(c.P, c08Pkg) {
 			if r.savers[f] || r.autoSavers[f] || r.indexWriter[f] || ErrResultIndex(f.Signature) < 0 || len(c08SaveCalls(f, r)) == 0 || len(c08Mutations(f, r)) > 0 {
 				continue
 			}
@@ -574,7 +574,7 @@ func c08Unsaved(f *ssa.Function, r *c08Roles) (ssa.Instruction, *ssa.Return) {
 func c08ComputeDirty(p *Prog, r *c08Roles) {
 	for changed := true; changed; {
 		changed = false
-		for _, f := range p.FuncsOfPkg(c08Pkg) {
+		for _, f := range c09FuncsOfPkg(p, c08Pkg) {
 			if r.dirty[f] || r.savers[f] || f.Object() == nil || f.Object().Exported() {
 				continue
 			}
@@ -705,7 +705,7 @@ type c08Promise struct {
 // save, or a period with AutoSaveIndex off, may have left the file behind).
 func c08PersistPromises(p *Prog, r *c08Roles) (out []c08Promise, lost []string) {
 	helpers := map[*ssa.Function]bool{}
-	for _, f := range p.FuncsOfPkg(c08Pkg) {
+	for _, f := range c09FuncsOfPkg(p, c08Pkg) {
 		if f.Signature.Recv() == nil || r.savers[f] {
 			continue
 		}
